@@ -10,13 +10,15 @@ from .common import BUILD_ROOT, GUARD, HARNESS, REPO, CheckError, log, run
 
 CFLAGS = "-O1 -g -fsanitize=address -fno-omit-frame-pointer -fno-optimize-sibling-calls -D%s -Wno-error" % GUARD
 # second variant: ThreadSanitizer build of the library, used only by the data-race scan of the controlled-scheduler checks
+# third variant: source-coverage build (no sanitizer), only used by tools/coverage.py to find library code no check drives
+CFLAGS_COV = "-O0 -g -fprofile-instr-generate -fcoverage-mapping -D%s -Wno-error" % GUARD
 CFLAGS_TSAN = "-O1 -g -fsanitize=thread -fno-omit-frame-pointer -D%s -Wno-error" % GUARD
 KEEP = 8            # plus: never prune a directory used within the last 90 minutes (concurrent checks / worktrees)
 
 
 def tree_hash(variant="asan"):
     h = hashlib.sha256()
-    h.update((CFLAGS if variant == "asan" else CFLAGS_TSAN).encode())
+    h.update({"asan": CFLAGS, "tsan": CFLAGS_TSAN, "cov": CFLAGS_COV}[variant].encode())
     roots = ["source", "include", "cmake", "CMakeLists.txt"]
     for r in roots:
         p = os.path.join(REPO, r)
@@ -55,6 +57,8 @@ def _prune(keep_name):
 
 def ensure_lib(variant="asan"):
     """Returns the build directory (containing libaws-c-common.a and generated/include)."""
+    if variant == "asan" and os.environ.get("VERIF_BUILD_VARIANT") == "cov":
+        variant = "cov"
     os.makedirs(BUILD_ROOT, exist_ok=True)
     th = tree_hash(variant)
     bdir = os.path.join(BUILD_ROOT, th)
@@ -71,7 +75,7 @@ def ensure_lib(variant="asan"):
         cfg = [
             "cmake", "-G", "Ninja", "-S", REPO, "-B", bdir, "-DCMAKE_C_COMPILER=clang", "-DCMAKE_BUILD_TYPE=None",
             "-DBUILD_TESTING=OFF", "-DAWS_WARNINGS_ARE_ERRORS=OFF",
-            "-DCMAKE_C_FLAGS=" + (CFLAGS if variant == "asan" else CFLAGS_TSAN),
+            "-DCMAKE_C_FLAGS=" + {"asan": CFLAGS, "tsan": CFLAGS_TSAN, "cov": CFLAGS_COV}[variant],
         ]
         rc, out, err, to = run(cfg, timeout=600)
         if rc != 0:
@@ -97,6 +101,8 @@ WRAP_SYMS = [
 
 def build_harness(name, srcs, cflags=None, ldflags=None, wrap=False, includes=None, variant="asan"):
     """Compile harness/<srcs> and link against the library of the current tree. Returns exe path."""
+    if variant == "asan" and os.environ.get("VERIF_BUILD_VARIANT") == "cov":
+        variant = "cov"
     bdir = ensure_lib(variant)
     hdir = os.path.join(bdir, "harness")
     os.makedirs(hdir, exist_ok=True)
@@ -121,6 +127,8 @@ def build_harness(name, srcs, cflags=None, ldflags=None, wrap=False, includes=No
             return exe
         if variant == "asan":
             base = CFLAGS.split()
+        elif variant == "cov":
+            base = CFLAGS_COV.split() + ["-DVH_NO_ASAN", "-DVH_COV"]
         else:
             # harness code itself is NOT instrumented (its own bookkeeping is shared on purpose); only linked with the runtime
             base = ["-O1", "-g", "-fno-omit-frame-pointer", "-fno-builtin", "-D" + GUARD, "-DVS_TSAN"]
@@ -129,7 +137,7 @@ def build_harness(name, srcs, cflags=None, ldflags=None, wrap=False, includes=No
                "-I", os.path.join(HARNESS, "core"), "-I", HARNESS]
         for i in includes or []:
             cmd += ["-I", i]
-        if variant != "asan":
+        if variant == "tsan":
             # compile the harness WITHOUT the sanitizer (a single compile-and-link command would instrument it too),
             # then link the uninstrumented objects with the instrumented library and the runtime
             objs = []
